@@ -12,17 +12,19 @@ Local Open Scope Z_scope.
     the (c+1)-th enabled day epoch mints floor(polynomial(p)*10^6/EPP) with p = floor(c/EPP), nothing once p reaches
     MaxPeriod; disabled epochs mint nothing and leave c alone; staking and community receive the floors of their
     proportions, the strategic reserve the remainder, the module account is left empty; CurrentPeriod = min(c/EPP, MaxPeriod).
-    The final state is consistent again.  [zp] = whether a positive provision below one unibi panics on the tree
-    (probed by the driver); if it does, [hist_ok] asks for provisions of at least one unibi. *)
+    The final state is consistent again.
+    [run false] is the model of a tree on which a positive provision below one unibi does not panic (true since the
+    fix: commit 2259f46; the driver probes it on every run, and on a tree where it panics the schedule predicate is
+    false on the implementation trace — C13_sub_unit_provision_panics_before_fix). *)
 Theorem C13_period_tracks_schedule :
-  forall (zp : bool) (ops : list op) (s : st) (e : Z),
+  forall (ops : list op) (s : st) (e : Z),
     let p := s_params s in
     Consistent s e -> s_module s = 0 -> 0 <= peek (s_skipped s) -> small (p_epp p) (p_max p) ->
-    hist_ok zp (p_epp p) (p_max p) p (n_of s e - 1) e ops ->
-    map view_of (snd (run zp s ops)) = snd (spec_run {| q_params := p; q_c := n_of s e - 1 |} ops) /\
-    exists e', Consistent (fst (run zp s ops)) e' /\
+    hist_ok (p_epp p) (p_max p) p (n_of s e - 1) e ops ->
+    map view_of (snd (run false s ops)) = snd (spec_run {| q_params := p; q_c := n_of s e - 1 |} ops) /\
+    exists e', Consistent (fst (run false s ops)) e' /\
                fst (spec_run {| q_params := p; q_c := n_of s e - 1 |} ops) =
-               {| q_params := s_params (fst (run zp s ops)); q_c := n_of (fst (run zp s ops)) e' - 1 |}.
+               {| q_params := s_params (fst (run false s ops)); q_c := n_of (fst (run false s ops)) e' - 1 |}.
 Proof. exact period_tracks_schedule. Qed.
 Print Assumptions C13_period_tracks_schedule.
 
@@ -35,8 +37,8 @@ Print Assumptions C13_schedule_position_counts_enabled_epochs.
 
 (** "The polynomial is positive below MaxPeriod" implies the pointwise hypothesis used in [hist_ok]. *)
 Theorem C13_positive_polynomial_suffices :
-  forall (zp : bool) (p : params) (c : Z), poly_ok zp p -> 0 < p_epp p -> 0 <= c -> prov_ok zp p c.
-Proof. exact poly_ok_prov_ok. Qed.
+  forall (p : params) (c : Z), poly_pos p -> 0 < p_epp p -> 0 <= c -> prov_ok p c.
+Proof. exact poly_pos_prov_ok. Qed.
 Print Assumptions C13_positive_polynomial_suffices.
 
 (** A new chain (period 0, skipped 0, never started) is consistent at day epoch 1 … *)
@@ -86,6 +88,16 @@ Theorem C13_all_distributed :
     (o_minted x = 0 -> o_staking x = 0 /\ o_community x = 0 /\ o_strategic x = 0 /\ o_module x = s_module s).
 Proof. exact all_distributed. Qed.
 Print Assumptions C13_all_distributed.
+
+(** … and along EVERY history from EVERY state (any counters, any parameter edits, stray coins): at each
+    day-epoch end with valid proportions [dist_step] holds — minted >= 0, the three recipients receive the minted
+    amount plus what lay in the module account, floors for staking / community, module account empty. *)
+Theorem C13_distributed_along_every_history :
+  forall (zp : bool) (ops : list op) (s : st),
+    0 <= s_module s -> Forall fund_nonneg ops ->
+    P_dist (s_params s) (s_module s) (combine ops (snd (run zp s ops))).
+Proof. exact distributed_along_every_history. Qed.
+Print Assumptions C13_distributed_along_every_history.
 
 (** The roll-over test on uint64 / int64 is the integer comparison when nothing exceeds 2^62. *)
 Theorem C13_rollover_test_without_wraparound :
@@ -143,24 +155,30 @@ Theorem C13_first_enable_without_a_disabled_epoch_refuted :
 Proof. exact first_enable_without_a_disabled_epoch_refuted. Qed.
 Print Assumptions C13_first_enable_without_a_disabled_epoch_refuted.
 
-(** FINDING (reported; the statement holds for the model of the pinned tree, [zp] = true as the driver's probe
-    reports): a polynomial that is positive below MaxPeriod but yields less than one unibi per epoch makes the
-    epoch hook panic in a consistent state — in BeginBlock this halts the chain. *)
-Theorem C13_sub_unit_provision_panics :
+(** DEFECT found by this check on the pinned tree, repaired by fix: commit 2259f46 ([true] = the model of a tree where
+    the deferred telemetry block dereferences the nil amounts): a polynomial that is positive below MaxPeriod but
+    yields less than one unibi per epoch makes the epoch hook panic in a consistent state — in BeginBlock this
+    halts the chain.  The reverse of the fix is reported as a violation (the schedule predicate demands no panic). *)
+Theorem C13_sub_unit_provision_panics_before_fix :
   exists s e, Consistent s e /\ dist_ok (s_params s) /\ poly_pos (s_params s) /\ s_module s = 0 /\
-              o_panic (snd (after_epoch_end true s true e)) = true.
+              o_panic (snd (after_epoch_end true s true e)) = true /\
+              o_panic (snd (after_epoch_end false s true e)) = false.
 Proof. exact sub_unit_provision_panics. Qed.
-Print Assumptions C13_sub_unit_provision_panics.
+Print Assumptions C13_sub_unit_provision_panics_before_fix.
 
 (** The boolean checker evaluated on implementation traces is sound for the schedule predicate … *)
 Theorem C13_checker_sound : forall q tr, Pb_trace q tr = true -> P_trace q tr.
 Proof. exact Pb_trace_sound. Qed.
 Print Assumptions C13_checker_sound.
 
+Theorem C13_distribution_checker_sound : forall tr p m0, Pb_dist p m0 tr = true -> P_dist p m0 tr.
+Proof. exact Pb_dist_sound. Qed.
+Print Assumptions C13_distribution_checker_sound.
+
 (** … and wherever the check evaluates it ([pre]), the case lies inside the hypotheses of the main theorem, so the
     model's own trace of that case satisfies it. *)
 Theorem C13_check_precondition_sound :
   forall c : case, pre c = true ->
-    P_trace (start_q c) (combine (map fst (c_tr c)) (snd (run (c_zp c) (c_init c) (map fst (c_tr c))))).
+    P_trace (start_q c) (combine (map fst (c_tr c)) (snd (run false (c_init c) (map fst (c_tr c))))).
 Proof. exact pre_sound. Qed.
 Print Assumptions C13_check_precondition_sound.
